@@ -17,11 +17,11 @@ PROPS['C13'] = dict(
     required_theorems=['C13_parseI32_spec', 'C13_encode_int', 'C13_encode_sha', 'C13_canonical',
                        'C13_encode_idem_on_ints', 'C13_natRepr_injective', 'C13_intToDec_injective',
                        'C13_normalize_encode', 'C13_normalize_idem'],
-    families=[dict(name='c13')],
+    families=[dict(name='c13'), dict(name='c13f')],
     default_dir='exact',
     spec_is_model=['c13'],
     fam_theorem={'c13': 'C13_encode_int / C13_encode_sha (encode = spec) via C13_parseI32_spec'},
-    rule="strings: exhaustive [+-]?0{0,3}digits within +-3 (quick) / +-40 (thorough) of 0, +-2^31, +-2^31*10, 2^32, 2^63, u64::MAX; all strings of length <= 2 over a 40-symbol alphabet (signs, ASCII and non-ASCII digits, whitespace, controls); decorated numbers; random digit runs; random unicode; long strings. Each string is encoded at every call site (function hook, MakeCredentialValues::add_raw, RawCredentialValues::encode, CredentialSubject::encode as string and as number, C ABI helper) and compared exactly with the Lean model. distinct = distinct (site,string); all are non-trivial (each exercises the parse/hash decision)",
+    rule="strings: exhaustive [+-]?0{0,3}digits within +-3 (quick) / +-40 (thorough) of 0, +-2^31, +-2^31*10, 2^32, 2^63, u64::MAX; all strings of length <= 2 over a 40-symbol alphabet (signs, ASCII and non-ASCII digits, whitespace, controls); decorated numbers; random digit runs; random unicode; long strings. Each string is encoded at every call site (function hook, MakeCredentialValues::add_raw, RawCredentialValues::encode, CredentialSubject::encode as string and as number, C ABI helper) and compared exactly with the Lean model. Flow sites (family c13f): credentials whose values sit on the boundaries of the integer branch (2^31-1, 2^31, -2^31, -2^31-1, 13-digit and 19/20-digit runs, signed / zero-padded / blank-padded forms, empty string, non-ASCII digits) are issued in legacy form, in W3C form with string-typed and with number-typed subject values, converted both ways, processed by the holder, presented in both formats revealing every value and verified (must be true); the encoded value each object carries is compared with the model. distinct = distinct (site,string); all are non-trivial (each exercises the parse/hash decision)",
     trusted_base=TRUSTED_COMMON + [
         "SHA-256 is a Lean definition (Model/Sha256.lean); that the sha2 crate computes it is established by this correspondence run only",
         "Rust str::parse::<i32> is modelled by hand from core::num (sign handling, checked mul/add/sub digit loop)",
@@ -167,6 +167,14 @@ def search_C17(lean, workdir, vh):
             return of
     return None
 
+def search_C18(lean, workdir, vh):
+    """a store function changed: besides the concurrent histories of the c18 family, probe every handle position (required and optional) of real calls with freed / unknown / wrong-typed handles"""
+    s = ext_ffi_check(workdir, 'quick', 1, __import__('vcheck').sh, vh)
+    for of in s.get('oracle_failures', []):
+        if 'handle' in of.get('what', ''):
+            return of
+    return None
+
 # ops whose cases are self-contained (can be re-evaluated from a replay file by `vh replay`)
 UNIT_OPS = {'enc', 'norm_enc', 're', 'id', 'schema_valid', 'credreq_valid', 'q_parse', 'q_print', 'q_names', 'q_validate', 'req_validate', 'q_eval',
             'q_selfattest_ok', 'ivl_merge', 'ivl_override', 'ivl_valid', 'ivl_fold', 'ivl_requested', 'ivl_prover', 'ivl_check_legacy', 'sl_run'}
@@ -290,12 +298,13 @@ PROPS['C14'] = dict(
     trusted_base=TRUSTED_COMMON + ["identifiers, signature material and revocation data are copied field by field by the Rust code and are outside the model: compared on real objects by the harness oracles only"],
 )
 PROPS['C15'] = dict(
-    lean_targets=['AnonModel.Props.C15'],
-    required_theorems=['C15_nonce_ser_de', 'C15_nonce_string_kept', 'C15_nonce_rejects', 'C15_revlist_de_ser', 'C15_revlist_ser_de', 'C15_ver_roundtrip',
+    lean_targets=['AnonModel.Props.C15', 'AnonModel.Props.C15Req'],
+    required_theorems=['C15_req_de_ser', 'C15_req_ser_de', 'C15_req_ser_de_any', 'C15_req_empty_interval_kept', 'C15_req_restrictions_kept', 'C15_req_missing_vs_null', 'C15_req_ver',
+                       'C15_nonce_ser_de', 'C15_nonce_string_kept', 'C15_nonce_rejects', 'C15_revlist_de_ser', 'C15_revlist_ser_de', 'C15_ver_roundtrip',
                        'C15_missing_ver_is_v1', 'C15_attrval_de_ser', 'C15_attrval_ser_de', 'C15_attrval_rejects'],
     families=[dict(name='c15')], default_dir='exact', spec_is_model=['c15'],
-    fam_theorem={'c15': 'C15_nonce_* / C15_revlist_* / C15_ver_* / C15_attrval_* (hand-written codecs = model)'},
-    rule="hand-written codecs compared exactly with the model on ~2000 JSON inputs each way (Nonce from strings with leading zeros / numbers / byte arrays incl. truncation and trailing junk / wrong types; revocation list bits incl. other numbers, floats, booleans; request version present / absent / unknown / mistyped; untagged attribute value over the i32 boundaries, floats, big integers, null, arrays). Hop stream (oracle, all 17 object types): every complete flow (legacy / W3C x plain / revocable) is run twice from the same PRNG state, once directly and once with a serialise->deserialise hop at every hand-over point (schema, definition and its private and correctness parts, offer, request and metadata, credential before and after processing, registry definition and private part, status list, revocation state, nonce, presentation request, presentation): outcomes must agree; ser(de(ser x)) = ser x as canonical documents (JSON values, msgpack envelopes decoded); every cast object and 24 random honest presentations hopped and re-verified",
+    fam_theorem={'c15': 'C15_nonce_* / C15_revlist_* / C15_ver_* / C15_attrval_* / C15_req_* (hand-written codecs = model; reqDe / reqSer is the whole presentation-request codec)'},
+    rule="the whole PresentationRequest codec (op codec_req: de then ser, as documents) on 1,200 (quick) / 20,000 (thorough) documents assembled from member pools holding every boundary form (intervals {} / one bound / both / null / array form / wrong types / out of u64; restrictions in every operator and degenerate form incl. legacy lists with null tags; names / p_type / p_value / nonce / ver forms; missing, null and unknown members; array-form structs), about half of them valid; typed-equality hops (PresentationRequest, W3CCredential, W3CPresentation: PartialEq; status lists, offers, requests, metadata, registry definitions, revocation states: printed form) and status lists with timestamps absent / 0 / 1 / u64::MAX. Hand-written codecs compared exactly with the model on ~2000 JSON inputs each way (Nonce from strings with leading zeros / numbers / byte arrays incl. truncation and trailing junk / wrong types; revocation list bits incl. other numbers, floats, booleans; request version present / absent / unknown / mistyped; untagged attribute value over the i32 boundaries, floats, big integers, null, arrays). Hop stream (oracle, all 17 object types): every complete flow (legacy / W3C x plain / revocable) is run twice from the same PRNG state, once directly and once with a serialise->deserialise hop at every hand-over point (schema, definition and its private and correctness parts, offer, request and metadata, credential before and after processing, registry definition and private part, status list, revocation state, nonce, presentation request, presentation): outcomes must agree; ser(de(ser x)) = ser x as canonical documents (JSON values, msgpack envelopes decoded); every cast object and 24 random honest presentations hopped and re-verified",
     trusted_base=TRUSTED_COMMON + ["serde derive, serde_json, rmp-serde, base64 and the CL crate's (de)serialisers are external code outside the model (the property is partial in that sense): exercised by the hop stream only"],
     not_exhibited_by_model=["derive-generated and CL-crate codecs, the msgpack/base64 envelope: hop stream (test) only"],
 )
